@@ -337,6 +337,41 @@ def run(repo: Repo, ctx) -> None:
                 if via_local is not None:
                     guard += f' (local bound at L{g.nodes[via_local].lineno})'
                 break
+        if guard is None:
+            # (a2) the call is the body of `for _ in range(.. free room ..)`:
+            # every iteration takes one slot and the trip count is bounded
+            # by max - cur, read in the same atomic segment
+            from ..model import inline_locals as _il
+            for lp in g.nodes:
+                if lp.kind != 'for' or not isinstance(
+                        lp.ast.iter, ast.Call) or norm(
+                        lp.ast.iter.func) != 'range' or len(
+                        lp.ast.iter.args) != 1:
+                    continue
+                if not any(y is call for st_ in lp.ast.body
+                           for y in ast.walk(st_)):
+                    continue
+                openers_in_body = [y for st_ in lp.ast.body
+                                   for y in ast.walk(st_)
+                                   if isinstance(y, ast.Call) and
+                                   norm(y.func) == norm(call.func)]
+                bound = lp.ast.iter.args[0]
+                terms = bound.args if isinstance(bound, ast.Call) and norm(
+                    bound.func) == 'min' else [bound]
+                room = False
+                for tm in terms:
+                    try:
+                        tx = _il(f.node, tm)
+                    except Exception:
+                        tx = norm(tm)
+                    if tx.replace('(', '').replace(')', '') == \
+                            'self._max_capacity - self._cur_capacity':
+                        room = True
+                if room and len(openers_in_body) == 1 and len(
+                        lp.ast.body) == 1 and _seg_clear(g, lp.id, nid):
+                    guard = (f'loop L{lp.lineno}: at most max - cur '
+                             f'iterations, one slot each')
+                    break
         comp = None
         if guard is None:
             # (b1) compensation: a capacity slot was given back in the same
